@@ -287,7 +287,16 @@ func RunEngine(t *testing.T) {
 				n := runtime.Stack(buf, true)
 				idx := progressIdx.Load()
 				_ = os.WriteFile(filepath.Join(work, fmt.Sprintf("hang-%d.txt", idx)), buf[:n], 0o644)
-				res.Inconc(fmt.Sprintf("scenario %d made no progress for %ds (wall clock) - abandoned", idx, hangSecs))
+				if fn, detail := stsDeadlock(string(buf[:n])); fn != "" {
+					// every goroutine of the scenario is blocked, none sleeps inside sts or
+					// hook code, and at least one waits for a sync mutex inside sts: nobody
+					// is left who could release it
+					res.Violate(Violation{Clause: "no-deadlock", Fingerprint: c.Prop + "/deadlock/" + fn,
+						Detail: fmt.Sprintf("scenario %d: all goroutines of the scenario are blocked and %s", idx, detail), Scenario: map[string]any{"index": idx}, Index: int(idx)})
+					res.Counters["deadlocked_scenarios"]++
+				} else {
+					res.Inconc(fmt.Sprintf("scenario %d made no progress for %ds (wall clock) - abandoned", idx, hangSecs))
+				}
 				res.Counters["hung_scenarios"]++
 				res.Completed = false
 				flush()
@@ -324,4 +333,93 @@ func RunEngine(t *testing.T) {
 			t.Logf("INCONCLUSIVE %s", n)
 		}
 	}
+}
+
+// stsDeadlock looks at a dump of all goroutines taken when a scenario stopped making
+// progress and decides whether it shows a deadlock INSIDE sts: in the scenario's bubble
+// (the highest-numbered one) no goroutine is running, runnable or in a system call, no
+// goroutine that has sts or hook frames on its stack is sleeping (a sleeper may hold the
+// lock and would release it on a real clock - that is the virtual-clock artefact), no
+// instance was crashed (no parked goroutine), and at least one goroutine with sts frames
+// waits for a sync.Mutex / RWMutex.  Returns the sts function that waits, and a description.
+func stsDeadlock(dump string) (string, string) {
+	type gr struct {
+		state, stack string
+		bubble       int
+	}
+	var gs []gr
+	maxB := -1
+	for _, blk := range strings.Split(dump, "\n\n") {
+		blk = strings.TrimSpace(blk)
+		if !strings.HasPrefix(blk, "goroutine ") {
+			continue
+		}
+		hdr := blk
+		if i := strings.Index(blk, "\n"); i > 0 {
+			hdr = blk[:i]
+		}
+		lb, rb := strings.Index(hdr, "["), strings.LastIndex(hdr, "]")
+		if lb < 0 || rb < lb {
+			continue
+		}
+		st := hdr[lb+1 : rb]
+		b := -1
+		if i := strings.Index(st, "synctest bubble "); i >= 0 {
+			fmt.Sscanf(st[i:], "synctest bubble %d", &b)
+		}
+		if b > maxB {
+			maxB = b
+		}
+		gs = append(gs, gr{state: st, stack: blk, bubble: b})
+	}
+	if maxB < 0 {
+		return "", ""
+	}
+	hasSts := func(stack string) bool {
+		for _, ln := range strings.Split(stack, "\n") {
+			if strings.HasPrefix(ln, "github.com/arm-doe/sts/") {
+				return true // sts proper or the hook package inside it
+			}
+		}
+		return false
+	}
+	waiter := ""
+	for _, g := range gs {
+		if g.bubble != maxB {
+			continue
+		}
+		st := g.state
+		switch {
+		case strings.HasPrefix(st, "running"), strings.HasPrefix(st, "runnable"), strings.HasPrefix(st, "syscall"), strings.HasPrefix(st, "IO wait"):
+			return "", ""
+		case strings.HasPrefix(st, "select (no cases)"):
+			return "", "" // a crashed instance's goroutine: it may hold what the others wait for
+		case strings.HasPrefix(st, "sleep") && hasSts(g.stack):
+			return "", ""
+		case (strings.HasPrefix(st, "sync.Mutex.Lock") || strings.HasPrefix(st, "sync.RWMutex") || strings.HasPrefix(st, "semacquire")) && hasSts(g.stack):
+			if waiter == "" {
+				waiter = g.stack
+			}
+		}
+	}
+	if waiter == "" {
+		return "", ""
+	}
+	fn := ""
+	for _, ln := range strings.Split(waiter, "\n") {
+		if strings.HasPrefix(ln, "github.com/arm-doe/sts/") && !strings.Contains(ln, "zzverif") {
+			fn = ln
+			if i := strings.Index(fn, "("); i > 0 && !strings.HasPrefix(fn[i:], "(*") {
+				fn = fn[:i]
+			} else if j := strings.LastIndex(fn, "("); j > 0 {
+				fn = fn[:j]
+			}
+			fn = strings.TrimPrefix(fn, "github.com/arm-doe/sts/")
+			break
+		}
+	}
+	if fn == "" {
+		return "", ""
+	}
+	return fn, "this goroutine waits for a lock that nobody is left to release:\n" + trimStack(waiter)
 }
